@@ -36,7 +36,8 @@ def run_theme(C, theme, maxtok, traced=True, workers=4, simulate=None, depth=Non
                 api_jobs.append({"cfg": {"probes": True, "autoescape": [".html"], "gctx": G.context(env["gctx"]), "escape": env.get("esc", "html")}, "ctx": G.context(env["ctx"]),
                                  "steps": [{"op": "add", "tpls": list(reversed(tb))}, {"op": "render", "name": "t" + suffix},
                                            {"op": "render", "name": "t" + suffix, "to": {}}, {"op": "render_block", "name": "b" + suffix, "block": "k"},
-                                           {"op": "render_block", "name": "b" + suffix, "block": "k", "to": {}}]})
+                                           {"op": "render_block", "name": "b" + suffix, "block": "k", "to": {}},
+                                           {"op": "render_str", "src": src, "auto": env["ae"]}, {"op": "render_str", "src": src, "auto": env["ae"], "to": {}}]})
             jobs.append({"cfg": {"probes": True, "autoescape": [".html"], "gctx": G.context(env["gctx"]), "escape": env.get("esc", "html")}, "ctx": G.context(env["ctx"]),
                          "steps": [{"op": "add", "tpls": list(reversed(tpls))}, {"op": "render", "name": "t" + suffix, "expect_ae": env["ae"]}]
                                   + ([{"op": "render_str", "src": src, "auto": env["ae"], "expect_ae": env["ae"]}] if also_str else [])})
